@@ -10,6 +10,7 @@ import (
 	"strings"
 	"sync"
 	"syscall"
+	"time"
 )
 
 // verifStatusWrite appends one line per rewrite of a status record to the file named by $VERIF_STATUS_LOG:
@@ -40,6 +41,7 @@ var (
 // $VERIF_CRASH is "role:point:n" and the process has that role ("runner" for the command-runner process, "daemon"
 // otherwise). A line "pid role point" is appended to $VERIF_CRASH_LOG just before. Build tag "verif" only.
 func verifCrashPoint(point string) {
+	verifDelayPoint(point)
 	spec := os.Getenv("VERIF_CRASH")
 	if spec == "" {
 		return
@@ -74,4 +76,28 @@ func verifCrashPoint(point string) {
 	}
 	_ = syscall.Kill(os.Getpid(), syscall.SIGKILL)
 	select {}
+}
+
+// verifDelayPoint sleeps at a named point when $VERIF_DELAY is "role:point:milliseconds" (schedule control for the
+// verification harness: it widens windows such as "runner launched, not yet reporting").
+func verifDelayPoint(point string) {
+	spec := os.Getenv("VERIF_DELAY")
+	if spec == "" {
+		return
+	}
+	parts := strings.SplitN(spec, ":", 3)
+	if len(parts) != 3 || parts[1] != point {
+		return
+	}
+	role := "daemon"
+	for _, a := range os.Args {
+		if a == "--command-runner" {
+			role = "runner"
+		}
+	}
+	if parts[0] != role {
+		return
+	}
+	ms, _ := strconv.Atoi(parts[2])
+	time.Sleep(time.Duration(ms) * time.Millisecond)
 }
